@@ -227,6 +227,9 @@ class FormulaSpace:
             if y[0] == "const" and isinstance(y[1], int) and not isinstance(y[1], bool):
                 if y[1] <= lo:
                     return b.FALSE
+                if y[1] == lo + 1:
+                    # x < lo+1  ==  x == lo   (for unsigned: `x < 1`, `!(0 < x)` and `x == 0` are one atom)
+                    return self._cmp("Eq", x, ("const", lo, y[2]), ty)
             return self.atom(("bin", "Lt", x, y, ty))
         return self.atom(("bin", op, x, y, ty))
 
